@@ -29,6 +29,7 @@ def generate(rng: random.Random, tier: str):
         if dims is not None:
             dims = [d if rng.random() < 0.5 else d - rank for d in dims]
         cases.append({'kind': 'fun', 'cls': rng.choice(CLS), 'shape': shape, 'dim': dims, 'complex_x': rng.random() < 0.4,
+                      'target_dtype': rng.choice(['same', 'same', 'same', 'complex', 'real']),  # a complex target for a real x and vice versa
                       'weight': rng.choice(['py', 'py', 'tensor', 'bcast', 'complex']), 'target': rng.choice(['none', 'py', 'tensor', 'bcast']),
                       'divide_by_n': rng.random() < 0.5, 'keepdim': rng.random() < 0.5,
                       'sigma': rng.choice(['zero', 'tiny', 'py', 'py', 'tensor0', 'bcast']), 'scale': rng.choice([None, None, 0.5, 2.0, 3]),
@@ -77,9 +78,9 @@ def build(case, rng):
     elif tk == 'py':
         t = rng.choice([0.0, 1.0, -2.5])
     elif tk == 'tensor':
-        t = rand_tensor(rng, shape, case['complex_x'])
+        t = rand_tensor(rng, shape, {'same': case['complex_x'], 'complex': True, 'real': False}[case.get('target_dtype', 'same')])
     else:
-        t = rand_tensor(rng, bcast_shape(rng, shape), case['complex_x'])
+        t = rand_tensor(rng, bcast_shape(rng, shape), {'same': case['complex_x'], 'complex': True, 'real': False}[case.get('target_dtype', 'same')])
     kw = {'weight': w, 'target': t, 'dim': case['dim'], 'divide_by_n': case['divide_by_n'], 'keepdim': case['keepdim']}
     f = getattr(F, case['cls'])(**kw)
     fk = getattr(F, case['cls'])(**{**kw, 'keepdim': True})
@@ -154,7 +155,7 @@ def run_fun(case, drv) -> Outcome:
         return Outcome(key=('fun-ctor', str(case)), corr=f'constructor raised {built} for {case}')
     f, fk, x, w, t, sigma, red = built
     scale = case['scale']
-    cfgs = f'{case["cls"]} shape {case["shape"]} dim {case["dim"]} w:{case["weight"]} t:{case["target"]} div:{case["divide_by_n"]} keep:{case["keepdim"]} sigma:{case["sigma"]}'
+    cfgs = f'{case["cls"]} shape {case["shape"]} dim {case["dim"]} w:{case["weight"]} t:{case["target"]}{"/" + case.get("target_dtype", "same") if case["target"] in ("tensor", "bcast") else ""} div:{case["divide_by_n"]} keep:{case["keepdim"]} sigma:{case["sigma"]}'
     viol = None
     corr = None
 
@@ -220,7 +221,7 @@ def run_fun(case, drv) -> Outcome:
             if st6 == 'ok' and not close((sp + sig_t * sc).to(torch.complex128), (x + 0 * sp).to(torch.complex128), TOL if case['sigma'] != 'tiny' else 1e-4):
                 viol = viol or v('scaled-moreau', f'Moreau identity fails for the scaled functional a={scale}')
     # ---------------- correspondence with the exact Lean model (real data only)
-    real_cfg = not case['complex_x'] and case['weight'] != 'complex'
+    real_cfg = not case['complex_x'] and case['weight'] != 'complex' and not (torch.is_tensor(t) and t.is_complex())
     if real_cfg:
         base_req = {'op': 'functional', 'cls': MODEL_CLS[case['cls']], 'weight': tj(w), 'target': tj(0.0 if t is None else t), 'dim': case['dim'],
                     'divide_by_n': case['divide_by_n'], 'keepdim': case['keepdim'], 'x': tj(x)}
